@@ -255,7 +255,17 @@ func verifH_C16_cache() {
 		rs, db := verifPrefixDB(sc, capacity, false)
 		var o outcome
 		for _, st := range stmts {
+			// the statement's dirty set at its peak (CREATE TABLE flushes by itself
+			// before it returns): counted whenever a page is marked dirty
+			storage.VerifPoint = func(ev string, off uint64) {
+				if ev == "page.dirty" {
+					if d := storage.VerifDirtyCount(rs) + 1; d > o.dirty {
+						o.dirty = d
+					}
+				}
+			}
 			err := st.run(rs)
+			storage.VerifPoint = nil
 			if d := storage.VerifDirtyCount(rs); d > o.dirty {
 				o.dirty = d
 			}
